@@ -12,7 +12,7 @@
    [before r' r] (Run/C03.v) = r' is tried before r: type-specific before Default, then larger
    (= newer) id first. *)
 From SC Require Import Lib.Prelude Lib.Int Lib.Host Model.SmartAccount
-  Proofs.SmartAccount Proofs.SmartAccountInv Proofs.SmartAccountLimits Run.C03 Proofs.C03Monitor Proofs.C03Table Proofs.C03Final Proofs.C03Threshold.
+  Proofs.SmartAccount Proofs.SmartAccountInv Proofs.SmartAccountLimits Run.C03 Proofs.C03Monitor Proofs.C03Table Proofs.C03Final Proofs.C03Threshold Proofs.C03Asked Proofs.C03AskedReach.
 From Coq Require Import Sorted.
 
 (* Soundness. In every reachable state, at every ledger position, for every supplied signature
@@ -93,6 +93,29 @@ Theorem C03_enforce_log : forall cfg calls O now auths sigs cs log,
               (combine cs rs)).
 Proof. exact enforce_log_reachable. Qed.
 Print Assumptions C03_enforce_log.
+
+(* "Acceptance by every one of its policies" means every policy IS ASKED, whatever the context: when
+   the check succeeds, for every context c and the rule r deciding it, the log shows the can_enforce
+   call of EVERY policy of r with exactly (c, r's own supplied signers, r), and its answer was true.
+   The statement quantifies over all contexts - a call of a contract that is itself one of r's
+   policy contracts, a verifier, a signer's address or the account is no exception. *)
+Theorem C03_every_policy_of_the_deciding_rule_is_asked : forall cfg calls O now auths sigs cs log,
+  let a := s_acct (run cfg init calls) in
+  do_check_auth O a now auths sigs cs = Ok log ->
+  exists rs, Forall2 (decides O a now (map fst sigs)) cs rs /\
+    forall c r, In (c, r) (combine cs rs) -> forall p, In p (r_policies r) ->
+      In (ECan p c (filter (fun s => mem_s s (map fst sigs)) (r_signers r)) r) log /\
+      o_can O p c (filter (fun s => mem_s s (map fst sigs)) (r_signers r)) r = Some true.
+Proof. exact all_policies_asked_reachable. Qed.
+Print Assumptions C03_every_policy_of_the_deciding_rule_is_asked.
+
+(* No enforcement without consultation (any account state): every enforce call in the log of a
+   successful check has its can_enforce call, with identical arguments, in the same log. *)
+Theorem C03_no_enforce_without_can_enforce : forall O a now auths sigs cs log,
+  do_check_auth O a now auths sigs cs = Ok log ->
+  forall p c au r, In (EEnforce p c au r) log -> In (ECan p c au r) log.
+Proof. exact enforced_was_asked. Qed.
+Print Assumptions C03_no_enforce_without_can_enforce.
 
 (* Signers not named by a rule never count: for the rule (requirement and the signer list handed
    to its policies) ... *)
@@ -263,7 +286,7 @@ Print Assumptions C03_entry_point_succeeds.
    with itself; it is what is evaluated on the real contract's traces. *)
 Theorem C03_monitor_accepts_model : forall (c : cfg) (types : list ctype) (calls : list call),
   (* the observation lists the ids of at least one type, and of every type a rule is created with
-     (a boolean on the inputs; the harness observes all 8 types it ever uses) *)
+     (a boolean on the inputs; the harness observes all 15 types it ever uses) *)
   covers types calls = true ->
   check (observe_model c types calls) = (0%N, 0%N, 0%N).
 Proof. exact check_accepts_model. Qed.
@@ -476,6 +499,32 @@ Example C03_monitor_rejects_enforce_once_per_rule :
      (Ok (None, [EVerify 0 0 SGood; EEnforce real_spend (CTransfer 2 30) [X0] (mkRule 3 (TCall 2) 3%N None [X0] [real_spend])]))
      (snd (observe_model cfg15 [TDefault; TCall 1; TCall 2] (hist_spend ++ [CheckAuth xsig [] [CTransfer 2 30; CTransfer 2 30]])))))) = 7%N.
 Proof. vm_compute. reflexivity. Qed.
+
+(* ---- a context that calls one of the deciding rule's own policy contracts is no exception ---- *)
+(* mock policy 0 is also callable as contract 6.  Rule 3: calls of contract 6, no signer, only policy 0. *)
+Definition r3p : rule := mkRule 3 (TCall 6) 3%N None [] [0%N].
+Definition types_party : list ctype := [TDefault; TCall 1; TCall 6].
+Definition hist_party_ok : list call := hist ++ [Admin admin_sig [0%N] (AddRule (TCall 6) 3%N None [] [(0%N, 1%N)])].
+Definition hist_party_no : list call := hist_party_ok ++ [SetMode 0%N 3 (mkMode true true PFalse PTrue)].
+Example C03_ex_call_of_own_policy :
+  snd (step cfg15 (run cfg15 init hist_party_ok) (CheckAuth [] [] [CCall 6 20]))
+    = Ok (None, [ECan 0%N (CCall 6 20) [] r3p; EEnforce 0%N (CCall 6 20) [] r3p]) /\
+  snd (step cfg15 (run cfg15 init hist_party_no) (CheckAuth [] [] [CCall 6 20])) = Fail.
+Proof. vm_compute. split; reflexivity. Qed.
+(* the policy refuses, yet the call of the policy contract "succeeds" because the callee was not asked: rejected *)
+Example C03_monitor_rejects_own_policy_skipped :
+  snd (fst (check (cfg15, set_last_outcome (Ok (None, [EEnforce 0%N (CCall 6 20) [] r3p]))
+     (snd (observe_model cfg15 types_party (hist_party_no ++ [CheckAuth [] [] [CCall 6 20]])))))) = 8%N.
+Proof. vm_compute. reflexivity. Qed.
+(* the policy would accept, but the log of the success shows no can_enforce call of it (asked clause): rejected;
+   asked about ANOTHER context or rule does not count either; the honest trace is accepted *)
+Example C03_monitor_rejects_unasked_policy :
+  check (observe_model cfg15 types_party (hist_party_ok ++ [CheckAuth [] [] [CCall 6 20]])) = (0%N, 0%N, 0%N) /\
+  snd (fst (check (cfg15, set_last_outcome (Ok (None, [EEnforce 0%N (CCall 6 20) [] r3p]))
+     (snd (observe_model cfg15 types_party (hist_party_ok ++ [CheckAuth [] [] [CCall 6 20]])))))) = 7%N /\
+  snd (fst (check (cfg15, set_last_outcome (Ok (None, [ECan 0%N (CCall 1 20) [] r3p; EEnforce 0%N (CCall 6 20) [] r3p]))
+     (snd (observe_model cfg15 types_party (hist_party_ok ++ [CheckAuth [] [] [CCall 6 20]])))))) = 7%N.
+Proof. vm_compute. repeat split. Qed.
 
 (* ---- review 2.1: a trapping can_enforce hook never ends in a success ---- *)
 Definition hist_trap : list call := hist ++ [SetMode 2%N 2 (mkMode true true PTrap PTrue)].
